@@ -100,8 +100,19 @@ def pairing(rep, O, ix, R):
     rep.check(ok_shape and B is not None and expr_ok, R, ix.site(f, fn), "self.func = lambdify(<binding>, expr): the first argument is a local binding and the second the constructor's expression")
     # B bound exactly once, to a materialisation (or sorted) of expr.free_symbols
     binds = [n for n in ast.walk(f.node) if isinstance(n, ast.Assign) and any(isinstance(t, ast.Name) and t.id == B for t in n.targets)] if B else []
-    src_ok = len(binds) == 1 and "free_symbols" in u(binds[0].value) and f.params[1] in {x.id for x in ast.walk(binds[0].value) if isinstance(x, ast.Name)}
-    rep.check(src_ok, R, ix.site(f, binds[0] if binds else f.node), "the binding `%s` materialises expr.free_symbols exactly once" % B)
+    src_ok = False
+    if len(binds) == 1:
+        v = binds[0].value
+        ex = f.params[1]
+        while isinstance(v, ast.Call) and u(v.func) in ("list", "tuple", "sorted") and v.args:
+            v = v.args[0]
+        if u(v) == "%s.free_symbols" % ex:
+            src_ok = True
+        elif isinstance(v, (ast.ListComp, ast.GeneratorExp)) and len(v.generators) == 1 and u(v.generators[0].iter) == "%s.free_symbols" % ex and not v.generators[0].ifs \
+                and u(v.elt) == u(v.generators[0].target):
+            src_ok = True
+    rep.check(src_ok, R, ix.site(f, binds[0] if binds else f.node), "the binding `%s` materialises all of expr.free_symbols exactly once (no filter: every register of the expression is an input)" % B,
+              "got `%s`" % (" ".join(u(binds[0].value).split())[:80] if binds else None), key=q + "|binding")
     # regrefs = order-preserving map over B
     rv = rg.value
     while isinstance(rv, ast.Call) and u(rv.func) in ("list", "tuple") and len(rv.args) == 1:
